@@ -48,7 +48,7 @@ TInit ==
   /\ dirty = [n \in Nodes |-> {}] /\ rounds = [n \in Nodes |-> 0]
   /\ metaCalled = {} /\ metaOK = {}
   /\ reads = [s \in Shards |-> 0] /\ servers = [s \in Shards |-> {}]
-  /\ swallowed = {} /\ mtLost = FALSE /\ outcome = "none" /\ taint = {}
+  /\ swallowed = {} /\ mtLost = FALSE /\ ciStalled = FALSE /\ outcome = "none" /\ taint = {}
 
 \* a new run may only start when the previous one was consumed to its end
 StartScenario ==
@@ -66,7 +66,7 @@ StartScenario ==
   /\ dirty' = [n \in Nodes |-> {}] /\ rounds' = [n \in Nodes |-> 0]
   /\ metaCalled' = {} /\ metaOK' = {}
   /\ reads' = [s \in Shards |-> 0] /\ servers' = [s \in Shards |-> {}]
-  /\ swallowed' = {} /\ mtLost' = FALSE /\ outcome' = "none" /\ taint' = {}
+  /\ swallowed' = {} /\ mtLost' = FALSE /\ ciStalled' = FALSE /\ outcome' = "none" /\ taint' = {}
   /\ Consume
 
 TMap == /\ Ev.e = "map" /\ Map
